@@ -31,7 +31,7 @@ def one(d):
 
 if __name__ == '__main__':
     base = pathlib.Path(sys.argv[1])
-    dirs = sorted(str(p.parent) for p in base.glob('[NMPQ]*/m*/patch.diff'))
+    dirs = sorted(str(p.parent) for p in base.glob('[NMPQS]*/m*/patch.diff'))
     with ProcessPoolExecutor(8) as ex:
         res = dict(ex.map(one, dirs))
     for k in sorted(res):
